@@ -18,11 +18,18 @@
 (* with the Gray-Paper layer's unique result and so name the order-dependent ones.   *)
 (*                                                                                   *)
 (* Scenario: svcs  sequence of [id, code (BOOLEAN), prog]; prog is a sequence of     *)
-(*                 [op |-> "xfer", to, amt, tag] | "rec" | "ckpt" | "panic"          *)
+(*                 [op |-> "xfer", to, amt, tag] | "rec" | "ckpt" | "panic" |        *)
+(*                 [op |-> "yield", tag]  (accumulation output = (number of items    *)
+(*                 counted by the last "rec" of this run, tag); it lives in the      *)
+(*                 context like everything else: checkpoint keeps it, panic drops    *)
+(*                 what came after the checkpoint)                                   *)
 (*           reports  sequence of reports, each a sequence of service ids (results)  *)
 (*           free  sequence of always-accumulate service ids                         *)
 (* "rec" stores the items the service is shown (transfers, then operands) under keys *)
 (* 0,1,2..; keys beyond the current item count keep what an earlier round left.      *)
+(* The outputs of all rounds form the SET b of (service, output) pairs (12.17/12.16): *)
+(* a service accumulated in two rounds of one block with different outputs has two   *)
+(* pairs; theta' lists b in ascending (service, output) order.                       *)
 (* A transfer to a service that does not exist is refused (WHO) and costs nothing;   *)
 (* balances are ample; a service without code is credited but runs nothing.          *)
 (* Scenarios have at least one report or always-accumulate service and must be      *)
@@ -50,6 +57,8 @@ Item(x) == IF "kind" \in DOMAIN x THEN [kind |-> "operand", from |-> 0, tag |-> 
 RECURSIVE SumAmt(_)
 SumAmt(q) == IF q = <<>> THEN 0 ELSE Head(q).amt + SumAmt(Tail(q))
 
+NoY == [n |-> 0 - 1, tag |-> 0 - 1]          \* no accumulation output
+
 \* ---- B.8-B.13: run the program with contexts X (regular) and Y (exceptional) ----
 RECURSIVE Run(_, _, _, _, _, _, _)
 Run(sc, s, ops, i, x, y, items) ==
@@ -62,14 +71,15 @@ Run(sc, s, ops, i, x, y, items) ==
                 IF o.to \in Ids(sc)
                 THEN [x EXCEPT !.spent = @ + o.amt, !.out = Append(@, [from |-> s, to |-> o.to, amt |-> o.amt, tag |-> o.tag])]
                 ELSE x, y, items)
+          ELSE IF o.op = "yield" THEN Run(sc, s, ops, i + 1, [x EXCEPT !.y = [n |-> x.cnt, tag |-> o.tag]], y, items)
           ELSE \* "rec"
             Run(sc, s, ops, i + 1,
-                [x EXCEPT !.store = items \o SubSeq(@, Len(items) + 1, Len(@))], y, items)
+                [x EXCEPT !.store = items \o SubSeq(@, Len(items) + 1, Len(@)), !.cnt = Len(items)], y, items)
 
 \* Delta1 with the transfers already arranged (iT) - the arrangement is where the layers differ
 Single(sc, e, s, iT, iU) ==
-  IF s \notin Ids(sc) THEN [spent |-> 0, store |-> <<>>, out |-> <<>>]
-  ELSE LET x0 == [spent |-> e.spent[s] - SumAmt(iT), store |-> e.store[s], out |-> <<>>]
+  IF s \notin Ids(sc) THEN [spent |-> 0, store |-> <<>>, out |-> <<>>, y |-> NoY, cnt |-> 0]
+  ELSE LET x0 == [spent |-> e.spent[s] - SumAmt(iT), store |-> e.store[s], out |-> <<>>, y |-> NoY, cnt |-> 0]
        IN IF ~SvcOf(sc, s).code THEN x0
           ELSE Run(sc, s, SvcOf(sc, s).prog, 1, x0, x0, [k \in 1..(Len(iT) + Len(iU)) |-> Item((iT \o iU)[k])])
 
@@ -83,14 +93,15 @@ ParallelGP(sc, e, t, r, f) ==
   IN [e |-> [spent |-> [s \in Ids(sc) |-> IF s \in S THEN res[s].spent ELSE e.spent[s]],
              store |-> [s \in Ids(sc) |-> IF s \in S THEN res[s].store ELSE e.store[s]]],
       t |-> FlattenSeq([k \in 1..Len(ord) |-> res[ord[k]].out]),
-      u |-> ord]
+      u |-> ord,
+      b |-> {[id |-> s, y |-> res[s].y] : s \in {q \in S : res[q].y # NoY}}]
 
 RECURSIVE OuterGP(_, _, _, _, _, _)
 OuterGP(sc, e, t, r, f, fuel) ==
-  IF Len(t) + Len(r) + Len(f) = 0 \/ fuel = 0 THEN [e |-> e, u |-> <<>>, ts |-> <<>>]
+  IF Len(t) + Len(r) + Len(f) = 0 \/ fuel = 0 THEN [e |-> e, u |-> <<>>, ts |-> <<>>, b |-> {}]
   ELSE LET p == ParallelGP(sc, e, t, r, f)
            rest == OuterGP(sc, p.e, p.t, <<>>, <<>>, fuel - 1)
-       IN [e |-> rest.e, u |-> p.u \o rest.u, ts |-> <<p.t>> \o rest.ts]
+       IN [e |-> rest.e, u |-> p.u \o rest.u, ts |-> <<p.t>> \o rest.ts, b |-> p.b \cup rest.b]
 
 MaxRounds == 6
 GP(sc) == OuterGP(sc, E0(sc), <<>>, sc.reports, sc.free, MaxRounds)
